@@ -245,7 +245,7 @@ def run(ctx):
     proofs = {}
     if dump is not None:
         ctx.copy_props("C08/C08_defs.v", "C08/C08_faces.v", "C08/C08_measure.v", "C08/C08_subparam.v", "C08/C08_invmap.v", "C08/C08_pointin.v",
-                       "C08/C08_pointin2d.v", "C08/C08_eval.v", "C08/C08_conform.v", "C08/C08_cur_invmap.v", "C08/C08_cur_pointin.v", "C08/C08_measure_thorough.v")
+                       "C08/C08_pointin2d.v", "C08/C08_eval.v", "C08/C08_conform.v", "C08/C08_locate.v", "C08/C08_locate2d.v", "C08/C08_evalpoly.v", "C08/C08_cur_invmap.v", "C08/C08_cur_pointin.v", "C08/C08_measure_thorough.v")
         r0 = ctx.coq(["C08_defs.v", "Gen_Elems.v", "Gen_Gauss.v", "Gen_Faces.v"], timeout=300, count=False)
         if not r0.ok:
             ctx.obligation("generated files compile", False, r0.log[-1500:])
@@ -259,13 +259,14 @@ def run(ctx):
                         proofs[f] = None
                         continue
                     proofs[f] = ctx.coq([f], timeout=1500 if "thorough" in f else 900)
+                    ctx.log("  %s %s %.1fs" % (f, "ok" if proofs[f].ok else "FAILED", proofs[f].files[-1][2] if proofs[f].files else 0))
             # statements about the source AS FOUND (C08_cur_*): only when the corresponding reader recognised the
             # source (otherwise the `translate:<reader>` violation already says that the property is not shown)
             chain_a = [("C08_faces.v", None), ("C08_measure.v", "C08_faces.v"), ("C08_subparam.v", "C08_measure.v")]
-            chain_b = [("C08_invmap.v", None), ("C08_eval.v", "C08_invmap.v")] + ([("C08_cur_invmap.v", "C08_invmap.v")] if evr is not None else []) + \
-                      [("C08_pointin.v", None)] + ([("C08_cur_pointin.v", "C08_pointin.v")] if pir is not None else []) + \
-                      [("C08_pointin2d.v", "C08_pointin.v"), ("C08_conform.v", None)]
-            from concurrent.futures import ThreadPoolExecutor
+            chain_b = [("C08_invmap.v", None), ("C08_eval.v", "C08_invmap.v"), ("C08_evalpoly.v", "C08_eval.v")] + \
+                      ([("C08_cur_invmap.v", "C08_invmap.v")] if evr is not None else []) + \
+                      [("C08_pointin.v", None), ("C08_locate.v", "C08_pointin.v")] + ([("C08_cur_pointin.v", "C08_locate.v")] if pir is not None else []) + \
+                      [("C08_pointin2d.v", "C08_pointin.v"), ("C08_locate2d.v", "C08_pointin2d.v"), ("C08_conform.v", None)]
             chains = [chain_a, chain_b]
             if ctx.tier == "thorough":
                 # general (non-affine) straight-sided hexahedra / prisms, 24 / 18 symbolic vertex coordinates: ~7 min
